@@ -22,7 +22,8 @@ CONSTANTS
   Mods,        \* sequence of module names in module-tree order
   Stages,      \* [module -> number of start-up stages]
   Stack,       \* [module -> number of processing elements]
-  Catch,       \* [module -> BOOLEAN]  stereotype catches panics
+  Catch,       \* [module -> BOOLEAN]  initial stereotype: catches panics
+  EndFail,     \* set of modules whose at_sim_end returns Err
   Route,       \* [start gate -> sequence of hops [own |-> owner of the gate reached, ch |-> channel id or 0]]
   GateOwner,   \* [start gate -> owning module]
   Chans,       \* set of channel ids
@@ -39,12 +40,13 @@ CONSTANTS
 
 VARIABLES
   now, fes, seq, active, inc, err, chan, nextMsg, ninv,
+  catching,    \* [module -> BOOLEAN] current stereotype (a handler may change its own)
   scripts,     \* [module -> sequence of chosen command lists] (the scenario)
   log,         \* observation log
   phase,       \* "boot" | "run" | "done"
   boot         \* <<stage, index into Mods>> during start-up
 
-nvars == <<now, fes, seq, active, inc, err, chan, nextMsg, ninv, scripts, log, phase, boot>>
+nvars == <<now, fes, seq, active, inc, err, chan, nextMsg, ninv, catching, scripts, log, phase, boot>>
 
 ModSet == {Mods[i] : i \in 1..Len(Mods)}
 
@@ -104,6 +106,7 @@ Exec(m, t, cmds, S) ==
       LET msg == [id |-> S.nextMsg, size |-> 1, eat |-> c.eat, from |-> m] IN
       Exec(m, t, Tail(cmds), [S EXCEPT !.out = Append(@, <<[k |-> "msg", m |-> m, msg |-> msg], t + c.d>>),
                                         !.nextMsg = @ + 1])
+    ELSE IF c.c = "setcatch" THEN Exec(m, t, Tail(cmds), [S EXCEPT !.setcatch = <<c.d = 1>>])
     ELSE IF c.c = "shutdown" THEN Exec(m, t, Tail(cmds), [S EXCEPT !.shut = <<"down">>])
     ELSE IF c.c = "restart" THEN Exec(m, t, Tail(cmds), [S EXCEPT !.shut = <<"restart", t + c.d>>])
     ELSE (* panic *) [S EXCEPT !.panic = TRUE]
@@ -129,7 +132,10 @@ NoMsg == [id |-> -1, size |-> 1, eat |-> 0, from |-> ""]
 (* One handler invocation on module m at time t (message delivery or a start-up stage): processing- *)
 (* element brackets, the handler's commands, the panic rule.  S carries what buf_process will need:  *)
 (* buffered events, shutdown request, panic flag.                                                    *)
-S0Of(W) == [chan |-> W.chan, out |-> <<>>, nextMsg |-> W.nextMsg, shut |-> <<>>, panic |-> FALSE, act |-> W.active]
+S0Of(W) == [chan |-> W.chan, out |-> <<>>, nextMsg |-> W.nextMsg, shut |-> <<>>, panic |-> FALSE, act |-> W.active, setcatch |-> <<>>]
+(* the stereotype in force when the panic is judged: the one the handler left behind *)
+NewCatch(m, S) == IF S.setcatch = <<>> THEN catching ELSE [catching EXCEPT ![m] = S.setcatch[1]]
+
 
 Invoke(W, S, m, t, what, msg, hasMsg, cmds) ==
   LET up == PEUp(m, 0, Stack[m], msg, hasMsg)
@@ -137,7 +143,9 @@ Invoke(W, S, m, t, what, msg, hasMsg, cmds) ==
       Sa == [S EXCEPT !.chan = W.chan, !.nextMsg = W.nextMsg, !.act = W.active]
       Sb == IF reaches THEN Exec(m, t, cmds, Sa) ELSE Sa
       hlog == IF reaches THEN <<what>> ELSE <<>>
-      down == IF Sb.panic THEN <<>> ELSE PEDown(m, Stack[m])     \* a panicking handler skips event_end
+      (* a panic that is reported (non-catching stereotype) leaves the event at once: no event_end;   *)
+      (* a caught panic lets the event finish normally                                             *)
+      down == IF Sb.panic /\ ~NewCatch(m, Sb)[m] THEN <<>> ELSE PEDown(m, Stack[m])
       W1 == [W EXCEPT !.chan = Sb.chan, !.nextMsg = Sb.nextMsg, !.log = @ \o up[1] \o hlog \o down,
                       !.active = IF Sb.panic THEN [@ EXCEPT ![m] = FALSE] ELSE @] IN
   [W |-> W1, S |-> Sb, ran |-> reaches]
@@ -170,7 +178,7 @@ RestartAll(W, S, m, t, stage, cs, used) ==
 Init == /\ now = 0 /\ fes = {} /\ seq = 0
         /\ active = [m \in ModSet |-> TRUE] /\ inc = [m \in ModSet |-> 1] /\ err = {}
         /\ chan = [c \in Chans |-> [busy |-> FALSE, until |-> 0, q |-> <<>>, acc |-> 0]]
-        /\ nextMsg = 1 /\ ninv = 0 /\ scripts = [m \in ModSet |-> <<>>]
+        /\ nextMsg = 1 /\ ninv = 0 /\ scripts = [m \in ModSet |-> <<>>] /\ catching = Catch
         /\ log = <<>> /\ phase = "boot" /\ boot = <<0, 1>>
 
 MaxStage == LET S == {Stages[m] : m \in ModSet} \cup {1} IN CHOOSE x \in S : \A y \in S : y <= x
@@ -186,7 +194,7 @@ BootStep ==
   /\ phase = "boot"
   /\ LET stage == boot[1]  idx == boot[2] IN
      IF stage >= MaxStage
-     THEN /\ phase' = "run" /\ UNCHANGED <<now, fes, seq, active, inc, err, chan, nextMsg, ninv, scripts, log, boot>>
+     THEN /\ phase' = "run" /\ UNCHANGED <<now, fes, seq, active, inc, err, chan, nextMsg, ninv, catching, scripts, log, boot>>
      ELSE LET m == Mods[idx]
               nxt == IF idx = Len(Mods) THEN <<stage + 1, 1>> ELSE <<stage, idx + 1>> IN
           /\ boot' = nxt
@@ -194,10 +202,11 @@ BootStep ==
              THEN \E cmds \in Choices(StartMenu[m]) :
                     LET R == Invoke(World, S0Of(World), m, 0, [o |-> "start", m |-> m, stage |-> stage, t |-> 0, inc |-> inc[m]], NoMsg, FALSE, cmds) IN
                     /\ Commit(Finish(R.W, m, 0, R.S))
-                    /\ err' = IF R.S.panic /\ ~Catch[m] THEN err \cup {m} ELSE err
+                    /\ catching' = NewCatch(m, R.S)
+                    /\ err' = IF R.S.panic /\ ~NewCatch(m, R.S)[m] THEN err \cup {m} ELSE err
                     /\ scripts' = [scripts EXCEPT ![m] = Append(@, cmds)]
                     /\ ninv' = ninv + Counts(StartMenu[m])
-             ELSE UNCHANGED <<fes, seq, chan, log, nextMsg, active, err, scripts, ninv>>
+             ELSE UNCHANGED <<fes, seq, chan, log, nextMsg, active, err, scripts, ninv, catching>>
           /\ UNCHANGED <<now, inc, phase>>
 
 CanRun == phase = "run" /\ fes # {} /\ MinOf(fes).t <= MaxT
@@ -211,20 +220,21 @@ Step ==
           LET idle == [W0.chan[e.ev.ch] EXCEPT !.busy = FALSE, !.until = 0]
               res == Drain(idle, e.ev.ch, e.t, <<>>) IN
           /\ Commit(Flush([W0 EXCEPT !.chan = [@ EXCEPT ![e.ev.ch] = res[1]]], e.t, res[2]))
-          /\ UNCHANGED <<inc, err, ninv, scripts, phase, boot>>
+          /\ UNCHANGED <<inc, err, ninv, scripts, phase, boot, catching>>
         ELSE IF e.ev.k = "exit" THEN
           LET res == Walk(W0.chan, W0.active, e.ev.msg, e.ev.r, e.ev.pos, e.t, <<>>) IN
           /\ Commit(Flush([W0 EXCEPT !.chan = res[1]], e.t, res[2]))
-          /\ UNCHANGED <<inc, err, ninv, scripts, phase, boot>>
+          /\ UNCHANGED <<inc, err, ninv, scripts, phase, boot, catching>>
         ELSE IF e.ev.k = "msg" THEN
           LET m == e.ev.m IN
           IF ~W0.active[m]
-          THEN /\ Commit(W0) /\ UNCHANGED <<inc, err, ninv, scripts, phase, boot>>
+          THEN /\ Commit(W0) /\ UNCHANGED <<inc, err, ninv, scripts, phase, boot, catching>>
           ELSE \E cmds \in Choices(Menu[m]) :
                  LET R == Invoke(W0, S0Of(W0), m, e.t, [o |-> "msg", m |-> m, id |-> e.ev.msg.id, t |-> e.t, inc |-> inc[m]], e.ev.msg, TRUE, cmds) IN
                  /\ (~R.ran => cmds = <<>>)          \* a consumed message runs no handler: canonical empty choice
                  /\ Commit(Finish(R.W, m, e.t, R.S))
-                 /\ err' = IF R.S.panic /\ ~Catch[m] THEN err \cup {m} ELSE err
+                 /\ catching' = NewCatch(m, R.S)
+                 /\ err' = IF R.S.panic /\ ~NewCatch(m, R.S)[m] THEN err \cup {m} ELSE err
                  /\ scripts' = IF R.ran THEN [scripts EXCEPT ![m] = Append(@, cmds)] ELSE scripts
                  /\ ninv' = IF R.ran THEN ninv + Counts(Menu[m]) ELSE ninv
                  /\ UNCHANGED <<inc, phase, boot>>
@@ -235,7 +245,8 @@ Step ==
             LET R == RestartAll(Wa, S0Of(Wa), m, e.t, 0, cs, <<>>) IN
             /\ Commit(Finish(R.W, m, e.t, R.S))
             /\ inc' = [inc EXCEPT ![m] = @ + 1]
-            /\ err' = IF R.S.panic /\ ~Catch[m] THEN err \cup {m} ELSE err
+            /\ catching' = NewCatch(m, R.S)
+            /\ err' = IF R.S.panic /\ ~NewCatch(m, R.S)[m] THEN err \cup {m} ELSE err
             /\ scripts' = [scripts EXCEPT ![m] = @ \o R.used]
             /\ ninv' = ninv + Len(R.used) * Counts(StartMenu[m])
             /\ UNCHANGED <<phase, boot>>
@@ -247,7 +258,7 @@ EndLog(i) == IF i > Len(Mods) THEN <<>>
                   \o PEDown(Mods[i], Stack[Mods[i]]) \o EndLog(i + 1)
 EndStep == /\ phase = "run" /\ ~CanRun
            /\ phase' = "done" /\ log' = log \o EndLog(1)
-           /\ UNCHANGED <<now, fes, seq, active, inc, err, chan, nextMsg, ninv, scripts, boot>>
+           /\ UNCHANGED <<now, fes, seq, active, inc, err, chan, nextMsg, ninv, catching, scripts, boot>>
 
 Next == BootStep \/ Step \/ EndStep
 Spec == Init /\ [][Next]_nvars
